@@ -49,7 +49,28 @@ var c16Kinds = map[string][][2]string{
 	// comparison operators (a hole of this type is an operator, not an operand)
 	// exponent literals of math.Pow (QF1005 removes the operand for 0, repeats it for 2 and 3)
 	"exp": {{"e0", "0"}, {"e1", "1"}, {"e2", "2"}, {"e3", "3"}},
-	"op":  {{"lt", "<"}, {"le", "<="}, {"gt", ">"}, {"ge", ">="}, {"eq", "=="}, {"ne", "!="}},
+	// pairs of near-equal expressions, one per node kind astutil.Equal distinguishes, differing in
+	// exactly one component: first | second | constant for the first | constant for the second.
+	// Fixes that merge "the same" expression (QF1002, QF1003) must not treat them as one.
+	"near": {
+		{"index", "xs[0]|xs[1]|0|1"},
+		{"indexx", "xs[0]|ys[0]|0|1"},
+		{"slicehigh", `w[:1]|w[:2]|"x"|"ab"`},
+		{"slicelow", `w[0:]|w[1:]|"x"|"b"`},
+		{"slicemax", "cap(xs[0:1:2])|cap(xs[0:1:3])|0|3"},
+		{"selector", "pp.X|pp.Y|7|1"},
+		{"callarg", "int64(a)|int64(b)|7|1"},
+		{"callfun", "len(w)|cap(xs)|7|4"},
+		{"star", "*pa|*pb|7|1"},
+		{"unaryop", "-a|+a|7|1"},
+		{"binaryop", "a + b|a - b|7|0"},
+		{"binaryarg", "a + 1|a + 2|7|2"},
+		{"paren", "(a)|(b)|7|0"},
+		{"complit", "(pt{a, 1})|(pt{a, 2})|(pt{7, 7})|(pt{0, 2})"},
+		{"assertx", "iv.(int)|jv.(int)|7|0"},
+		{"litkind", "xs[1]|xs[0x1+1]|7|1"},
+	},
+	"op": {{"lt", "<"}, {"le", "<="}, {"gt", ">"}, {"ge", ">="}, {"eq", "=="}, {"ne", "!="}},
 }
 
 var c16Templates = []c16Template{
@@ -120,6 +141,10 @@ var c16Templates = []c16Template{
 	{"QF1005a", "QF1005", []string{"flt", "exp"}, `ret = math.Pow($0, $1)`},
 	{"QF1005b", "QF1005", []string{"int", "exp"}, `ret = math.Pow(float64($0), $1)`},
 	{"QF1005c", "QF1005", []string{"flt", "exp"}, `ret = math.Pow($0, $1) + math.Pow(g, 2)`},
+	// fixes that merge several occurrences of "the same" expression into one
+	{"QF1002n", "QF1002", []string{"near"}, `xs, ys := mk(a, b, 1, 2), mk(b, a);; w := "ab" + s;; pp := &pt{a, b};; pa, pb := &a, &b;; var iv, jv interface{} = a, b;; _, _, _, _, _, _, _, _ = xs, ys, w, pp, pa, pb, iv, jv;; switch {;; case $0 == $0r: ret = 1;; case $0b == $0q: ret = 2;; default: ret = 3 }`},
+	{"QF1003n", "QF1003", []string{"near"}, `xs, ys := mk(a, b, 1, 2), mk(b, a);; w := "ab" + s;; pp := &pt{a, b};; pa, pb := &a, &b;; var iv, jv interface{} = a, b;; _, _, _, _, _, _, _, _ = xs, ys, w, pp, pa, pb, iv, jv;; if $0 == $0r { ret = 1 } else if $0b == $0q { ret = 2 } else { ret = 3 }`},
+	{"QF1003o", "QF1003", []string{"near"}, `xs, ys := mk(a, b, 1, 2), mk(b, a);; w := "ab" + s;; pp := &pt{a, b};; pa, pb := &a, &b;; var iv, jv interface{} = a, b;; _, _, _, _, _, _, _, _ = xs, ys, w, pp, pa, pb, iv, jv;; if $0 == $0r || $0b == $0q { ret = 1 } else if $0 == $0q { ret = 2 }`},
 	{"QF1012a", "QF1012", []string{"int", "str"}, `var sb strings.Builder;; sb.WriteString(fmt.Sprintf("%d-%s", $0, $1));; ret = sb.String()`},
 	{"QF1012b", "QF1012", []string{"int"}, `var buf bytes.Buffer;; buf.Write([]byte(fmt.Sprint($0)));; ret = buf.String()`},
 }
@@ -135,6 +160,11 @@ var c16BehaviourUnasserted = map[string]string{
 	"S1024":  "time.Until: wall clock",
 	"S1037":  "time.Sleep: wall clock",
 }
+
+// c16PendingFix lists (check, filling) cases that disagree on the unchanged tree because of a
+// defect whose fix is proposed but not yet in the tree; empty: the astutil.Equal composite-literal
+// defect found by the near-equal fillings is fixed (/repo 3b9b4d2) and asserted.
+var c16PendingFix = map[string]string{}
 
 const c16Prelude = `package main
 
@@ -172,6 +202,8 @@ func obsb(b bool) bool     { Log = append(Log, fmt.Sprint("b", b)); return b }
 func obss(s string) string { Log = append(Log, "s"+s); return s }
 func mk(xs ...int) []int   { return xs }
 func dur(i int) time.Duration { return time.Duration(i) }
+
+type pt struct{ X, Y int }
 func obsf(f float64) float64 { Log = append(Log, fmt.Sprint("f", f)); return f }
 `
 
@@ -192,6 +224,15 @@ func c16Fillings(t *c16Template) []c16Filling {
 		var kinds []string
 		for h := len(t.Holes) - 1; h >= 0; h-- {
 			k := c16Kinds[t.Holes[h]][idx[h]]
+			if parts := strings.Split(k[1], "|"); len(parts) == 4 {
+				// a pair of near-equal expressions with the constants they are compared to:
+				// $hb = second expression, $hr / $hq = first / second constant, $h = first expression
+				body = strings.ReplaceAll(body, fmt.Sprintf("$%db", h), parts[1])
+				body = strings.ReplaceAll(body, fmt.Sprintf("$%dr", h), parts[2])
+				body = strings.ReplaceAll(body, fmt.Sprintf("$%dq", h), parts[3])
+				body = strings.ReplaceAll(body, fmt.Sprintf("$%d", h), parts[0])
+				continue
+			}
 			body = strings.ReplaceAll(body, fmt.Sprintf("$%d", h), k[1])
 		}
 		for h := range t.Holes {
@@ -705,6 +746,13 @@ func c16Execute(res *vx.Result, st *c16Stats, mod string, fills []c16Filling, pa
 				sampled++
 				res.Sample(map[string]any{"part": "behaviour", "check": p.Check, "function": p.Fill.Src, "patched": p.Patched, "inputs": 576, "verdict": "same results, panics and obs log"})
 			}
+			continue
+		}
+		if why := c16PendingFix[p.Fill.Tpl.Name[:len(p.Fill.Tpl.Name)-1]+":"+strings.Join(p.Fill.Kinds, ",")]; why != "" {
+			// a genuine defect of the unchanged tree with a proposed fix (proposed-fix.diff) that is
+			// not integrated yet: enumerated, reported as unasserted, and kept out of the grouping
+			// so that it cannot hide a later failing filling
+			res.Unassert(fmt.Sprintf("%s %s filling %s changes behaviour (%s): %s", p.Check, p.Fill.Tpl.Name, strings.Join(p.Fill.Kinds, ","), d.class, why))
 			continue
 		}
 		group := fmt.Sprintf("%s:%s:fix%d:%s", p.Check, p.Fill.Tpl.Name, p.FixIdx, d.class)
